@@ -5,6 +5,7 @@ import (
 	"encoding/json"
 	"fmt"
 	"math"
+	"os"
 	"regexp"
 	"sort"
 	"strconv"
@@ -411,6 +412,22 @@ func C20(c *Ctx) error {
 	for _, nme := range recNames {
 		specs = append(specs, &c20Spec{req: recs[nme], kind: "recursive", tags: []string{"cell:recursive/" + nme}})
 	}
+	// 4. two versions of one API (same message and field names, different examples) generated together:
+	// the runner serves v2, which the plugin handles after v1
+	for _, first := range []bool{false, true} {
+		for _, serve := range []string{"v1", "v2"} {
+			specs = append(specs, &c20Spec{req: gen.MockVersionedSchema(first, serve), kind: "buildable", tags: []string{fmt.Sprintf("cell:versioned_packages/v1_first=%v/%s_served", first, serve)}})
+		}
+	}
+	if only := os.Getenv("VERIF_C20_ONLY"); only != "" { // debugging aid: keep the specs whose tags mention `only`
+		var keep []*c20Spec
+		for _, s := range specs {
+			if strings.Contains(strings.Join(s.tags, " "), only) {
+				keep = append(keep, s)
+			}
+		}
+		specs = keep
+	}
 	// accepted = every plugin answers without the mock option
 	accepted := make([]bool, len(specs))
 	var accErr error
@@ -447,7 +464,7 @@ func C20(c *Ctx) error {
 	if drv.Available() {
 		var dops []map[string]any
 		for _, s := range specs {
-			f := s.req.FileByName(s.req.Generate[0])
+			f := s.req.FileByName(s.req.PrimaryName())
 			for _, sv := range f.Services {
 				for _, m := range sv.Methods {
 					dops = append(dops, map[string]any{"op": "mock_answer", "rq": s.req.ToModel(), "file": f.Name, "type": m.Output, "decls": mockDecls(s.req), "floats": mockFloatRows(s.req)})
@@ -474,7 +491,7 @@ func C20(c *Ctx) error {
 		k := 0
 		for i, s := range specs {
 			p := &pred{table: "ok", can500: map[string]bool{}, fin: true}
-			f := s.req.FileByName(s.req.Generate[0])
+			f := s.req.FileByName(s.req.PrimaryName())
 			set := map[string]bool{}
 			for _, sv := range f.Services {
 				for _, m := range sv.Methods {
@@ -692,7 +709,7 @@ func C20(c *Ctx) error {
 				a.schema, a.comps = doc.resp[m.Name], doc.comps
 			}
 			if static != nil {
-				f := s.req.FileByName(s.req.Generate[0])
+				f := s.req.FileByName(s.req.PrimaryName())
 				op := map[string]any{"op": "mock_answer", "rq": s.req.ToModel(), "file": f.Name, "type": m.Output, "decls": mockDecls(s.req), "floats": mockFloatRows(s.req),
 					"real": gen.ValJSON(msg.ProtoReflect())}
 				if a.schema != nil {
